@@ -54,6 +54,41 @@ pub enum RCall {
     GetSubtreeRoot(u8, u32),
     GetEmpty,
     GetMetadata,
+    /// the full witness of a fixed assignment, evaluated on the bundled graph (digest)
+    Witness(u8),
+    /// the same evaluation handed a damaged graph file: that call fails (error or contained panic,
+    /// both reported as "refused"); it is in the lists for what it does to the callers next to it
+    WitnessDamagedGraph(u8),
+}
+
+/// assignment k: pool values on the path, direction bits from k
+fn wit_for(k: u8) -> Wit {
+    use crate::models::field::Fx;
+    Wit {
+        s: Fx(pool_value(k) + Fr::from(k as u64 + 1)),
+        limit: Fx::from_u64(1000),
+        mid: Fx::from_u64(k as u64),
+        path: (0..20).map(|i| Fx(pool_value(k.wrapping_add(i)))).collect(),
+        bits: (0..20).map(|i| (k >> (i % 8)) & 1).collect(),
+        x: Fx(pool_value(k.wrapping_add(3))),
+        e: Fx(pool_value(k.wrapping_add(4)) + Fr::from(7u64)),
+    }
+}
+
+fn damaged_graph(kind: u8) -> Vec<u8> {
+    let g = crate::rlnh::graph_bytes();
+    match kind % 4 {
+        0 => {
+            // header, "one node follows", an empty node record
+            let mut v = b"wtns.graph.001".to_vec();
+            v.extend_from_slice(&1u64.to_le_bytes());
+            v.extend_from_slice(&[0u8; 16]);
+            v
+        }
+        1 => g[..g.len() / 2].to_vec(),
+        2 => g[..g.len() - 3].to_vec(),
+        _ => g[..40].to_vec(),
+    }
 }
 
 impl RCall {
@@ -74,6 +109,8 @@ impl RCall {
             RCall::GetSubtreeRoot(..) => "get_subtree_root",
             RCall::GetEmpty => "get_empty_leaves_indices",
             RCall::GetMetadata => "get_metadata",
+            RCall::Witness(_) => "calculate_rln_witness",
+            RCall::WitnessDamagedGraph(_) => "calculate_rln_witness(damaged graph)",
         }
     }
 }
@@ -142,6 +179,22 @@ fn tamper(mut b: Vec<u8>, on: bool, at: usize) -> Vec<u8> {
 /// result of a read-only call as bytes (tag + payload); unseeded key generation is reduced to its shape
 pub fn exec(r: &RLN, m: &Msgs, c: &RCall) -> Vec<u8> {
     let n = m.msgs.len();
+    if let RCall::WitnessDamagedGraph(k) = c {
+        let g = damaged_graph(*k);
+        return match guarded(|| rln::circuit::calculate_rln_witness(crate::rlnh::named_inputs(&wit_for(*k)), &g)) {
+            Ok(w) => {
+                let mut h = Sha256::new();
+                for f in &w {
+                    h.update(fr_to_le32(f));
+                }
+                let mut b = h.finalize().to_vec();
+                b.insert(0, 1);
+                b
+            }
+            // refused, one way or the other
+            Err(_) => vec![3],
+        };
+    }
     let res: Result<Result<Vec<u8>, String>, Panicked> = guarded(|| {
         let es = |e: color_eyre::Report| e.to_string();
         let mut out = vec![];
@@ -181,6 +234,15 @@ pub fn exec(r: &RLN, m: &Msgs, c: &RCall) -> Vec<u8> {
                 Sha256::digest(&out).to_vec()
             }).map_err(es),
             RCall::GetMetadata => r.get_metadata(&mut out).map(|_| out).map_err(es),
+            RCall::Witness(k) => {
+                let w = rln::circuit::calculate_rln_witness(crate::rlnh::named_inputs(&wit_for(*k)), crate::rlnh::graph_bytes());
+                let mut h = Sha256::new();
+                for f in &w {
+                    h.update(fr_to_le32(f));
+                }
+                Ok(h.finalize().to_vec())
+            }
+            RCall::WitnessDamagedGraph(_) => unreachable!(),
         }
     });
     match res {
@@ -313,6 +375,120 @@ fn run_threads(r: &RLN, m: &Msgs, lists: &[Vec<(RCall, u16)>], limit: Duration) 
         }
     });
     Ok(results.into_iter().map(|r| r.unwrap()).collect())
+}
+
+// ---------------------------------------------------------------------------------------------
+// (e) readers behind the C interface
+// ---------------------------------------------------------------------------------------------
+
+#[derive(Clone, Copy)]
+struct CtxPtr(usize);
+unsafe impl Send for CtxPtr {}
+unsafe impl Sync for CtxPtr {}
+
+/// (root, leaf, proof) read through the FFI; None = the call reported failure
+/// (get_leaf takes the context mutably in the C interface, so only the writing thread calls it)
+fn ffi_reads(ctx: CtxPtr, i: usize, with_leaf: bool) -> [Option<Vec<u8>>; 3] {
+    use rln::ffi as f;
+    let p = ctx.0 as *const RLN;
+    let take = |flag: bool, b: &f::Buffer| if flag { Some(if b.len == 0 { vec![] } else { unsafe { std::slice::from_raw_parts(b.ptr, b.len) }.to_vec() }) } else { None };
+    let mut b0 = f::Buffer { ptr: std::ptr::null(), len: 0 };
+    let r0 = f::get_root(p, &mut b0);
+    let root = take(r0, &b0);
+    let mut b1 = f::Buffer { ptr: std::ptr::null(), len: 0 };
+    let leaf = if with_leaf {
+        let r1 = f::get_leaf(ctx.0 as *mut RLN, i, &mut b1);
+        take(r1, &b1)
+    } else {
+        None
+    };
+    let mut b2 = f::Buffer { ptr: std::ptr::null(), len: 0 };
+    let r2 = f::get_proof(p, i, &mut b2);
+    let proof = take(r2, &b2);
+    [root, leaf, proof]
+}
+
+fn run_ffi_readers(depth: usize, readers: usize, writes: &[(u16, u8)], o: &mut Outcome) {
+    use rln::ffi as f;
+    let cfg = b"{}".to_vec();
+    let mut raw: *mut RLN = std::ptr::null_mut();
+    if !f::new(depth, &f::Buffer { ptr: cfg.as_ptr(), len: cfg.len() }, &mut raw as *mut *mut RLN) || raw.is_null() {
+        vfail!(o, "ffi::new(depth {depth}) failed");
+        return;
+    }
+    let ctx = CtxPtr(raw as usize);
+    let mut m = TreeModel::new(depth, Fr::from(0u64));
+    let start = Arc::new(Barrier::new(readers + 1));
+    let end = Arc::new(Barrier::new(readers + 1));
+    let stop = Arc::new(std::sync::atomic::AtomicBool::new(false));
+    let index = Arc::new(std::sync::atomic::AtomicUsize::new(0));
+    let results: Arc<std::sync::Mutex<Vec<(usize, [Option<Vec<u8>>; 3])>>> = Arc::new(std::sync::Mutex::new(vec![]));
+    std::thread::scope(|s| {
+        for t in 0..readers {
+            let (start, end, stop, index, results) = (start.clone(), end.clone(), stop.clone(), index.clone(), results.clone());
+            s.spawn(move || loop {
+                start.wait();
+                if stop.load(std::sync::atomic::Ordering::SeqCst) {
+                    break;
+                }
+                let i = index.load(std::sync::atomic::Ordering::SeqCst);
+                let r = ffi_reads(ctx, i, false);
+                results.lock().unwrap_or_else(|e| e.into_inner()).push((t, r));
+                end.wait();
+            });
+        }
+        // round 0 reads the empty tree; then one write (made by this thread while the readers wait)
+        // before every further round
+        for round in 0..=writes.len() {
+            let i = if round == 0 {
+                0
+            } else {
+                let (sel, v) = writes[round - 1];
+                let i = pick_index(sel, m.cap());
+                let val = pool_value(v);
+                let bytes = fr_to_le32(&val);
+                if !f::set_leaf(raw, i, &f::Buffer { ptr: bytes.as_ptr(), len: bytes.len() }) {
+                    vfail!(o, "round {round}: ffi::set_leaf({i}) reported failure");
+                    break;
+                }
+                m.set(i, val);
+                i
+            };
+            index.store(i, std::sync::atomic::Ordering::SeqCst);
+            results.lock().unwrap_or_else(|e| e.into_inner()).clear();
+            start.wait();
+            end.wait();
+            let (sibs, bits) = m.proof(i).unwrap();
+            let mut want_proof = cr::enc_vec_fr(&sibs.iter().map(fr_to_big).collect::<Vec<_>>());
+            want_proof.extend(cr::enc_vec_u8(&bits));
+            let want = [Some(fr_to_le32(&m.root()).to_vec()), Some(fr_to_le32(&m.get(i).unwrap()).to_vec()), Some(want_proof)];
+            let mut all = results.lock().unwrap_or_else(|e| e.into_inner()).clone();
+            all.push((usize::MAX, ffi_reads(ctx, i, true)));
+            for (t, got) in all {
+                o.evals += 3;
+                for (k, name) in ["get_root", "get_leaf", "get_proof"].iter().enumerate() {
+                    if k == 1 && t != usize::MAX {
+                        continue;
+                    }
+                    if got[k] != want[k] {
+                        let who = if t == usize::MAX { "the writing thread".to_string() } else { format!("reader thread {t} of {readers}") };
+                        vfail!(o, "round {round} (after {round} writes, the last at leaf {i}): {name} read through the C interface by {who} gives {}, the tree holds {}", got[k].as_ref().map(|b| hexs(b)).unwrap_or("failure".into()), hexs(want[k].as_ref().unwrap()));
+                        break;
+                    }
+                }
+                if o.failed() {
+                    break;
+                }
+            }
+            if o.failed() {
+                break;
+            }
+        }
+        stop.store(true, std::sync::atomic::Ordering::SeqCst);
+        start.wait();
+    });
+    // the context is released by the thread that created it
+    let _ = unsafe { Box::from_raw(raw) };
 }
 
 // ---------------------------------------------------------------------------------------------
@@ -595,6 +771,9 @@ pub enum Case {
     Burst { calls: Vec<RCall>, fresh: bool },
     Lazy { lists: Vec<Vec<(RCall, u16)>> },
     Recreate { api: Api, depth: usize, cfg: StoreCfg, n: u8, writes: Vec<(u16, u8)>, #[serde(default)] handoff_ms: u16 },
+    /// one context behind the C interface: long-lived reader threads query it together (root, the
+    /// written leaf, its membership path) after every write, which another thread makes while they wait
+    FfiReaders { depth: usize, readers: u8, writes: Vec<(u16, u8)> },
 }
 
 fn rcall() -> BoxedStrategy<RCall> {
@@ -614,6 +793,8 @@ fn rcall() -> BoxedStrategy<RCall> {
         2 => (any::<u8>(), any::<u32>()).prop_map(|(l, i)| RCall::GetSubtreeRoot(l, i)),
         1 => Just(RCall::GetEmpty),
         1 => Just(RCall::GetMetadata),
+        2 => any::<u8>().prop_map(RCall::Witness),
+        1 => any::<u8>().prop_map(RCall::WitnessDamagedGraph),
     ]
     .boxed()
 }
@@ -644,7 +825,7 @@ impl Property for C18 {
     }
     fn rule(&self) -> String {
         "fixed part: W generated sequential workloads (batch updates on the persistent tree at depth 10/20, 2 witnesses -> full witness, witness-map H vector, Groth16 proof with fixed blinding, proof values; 2 public-API prove+verify; 12-24 read-only calls incl. verdicts on golden and tampered messages), each run in 4 child processes with RAYON_NUM_THREADS = 1, 2, 4, 16: transcripts identical line by line. \
-         generated part: Shared = one shared instance (the long-lived one, or one created for the case and first touched by the concurrent callers), 2/4/16 threads released by a barrier, each with a generated list of read-only calls (verify*, recover, hash, poseidon_hash, seeded key derivation, unseeded key generation shape, root/leaf/proof/subtree-root/empty-list/metadata queries) and spin/yield jitter, every result equal to the same call made sequentially (one caller at a time, on the reference instance); Burst = 2/4/8/16 threads each repeating one call (membership-path queries 1500x quick / 6000x thorough, verifications a few times) against its sequential result; Lazy = the same in a fresh child process where every thread first builds its own instance (concurrent first touch of the lazily initialised globals); Recreate = persistent instance dropped and re-created n times at once (trait / RLN API, storage configurations), each re-creation must return Ok with the persisted state within 60 s (else exit 2); hand-over variant: the new instance is constructed by another thread while the old one is released 1..1000 ms later. \
+         generated part: Shared = one shared instance (the long-lived one, or one created for the case and first touched by the concurrent callers), 2/4/16 threads released by a barrier, each with a generated list of read-only calls (verify*, recover, hash, poseidon_hash, seeded key derivation, unseeded key generation shape, root/leaf/proof/subtree-root/empty-list/metadata queries) and spin/yield jitter, every result equal to the same call made sequentially (one caller at a time, on the reference instance); Burst = 2/4/8/16 threads each repeating one call (membership-path queries 1500x quick / 6000x thorough, verifications a few times) against its sequential result; Lazy = the same in a fresh child process where every thread first builds its own instance (concurrent first touch of the lazily initialised globals); Recreate = persistent instance dropped and re-created n times at once (trait / RLN API, storage configurations), each re-creation must return Ok with the persisted state within 60 s (else exit 2); hand-over variant: the new instance is constructed by another thread while the old one is released 1..1000 ms later; FfiReaders = one context behind the C interface (depth 2..6), 1..4 long-lived reader threads released together after every one of 1..5 writes made by another thread, each reading the root and the written leaf's membership path (the writing thread also the leaf): every read equals the ideal tree after that write; calculate_rln_witness on the bundled graph and on damaged graph files (empty node record / cut in half / cut 3 bytes short / header only; error and contained panic both count as refused) are among the read-only calls. \
          evaluations = compared results. non-trivial = run with >= 4 threads in which >= 2 threads issued the same call kind at the same step, or a Recreate case with >= 10 re-creations; distinct by case content. Schedules are sampled, not enumerated.".into()
     }
     fn assumptions(&self) -> Vec<String> {
@@ -709,6 +890,7 @@ impl Property for C18 {
                 .prop_map(|(calls, fresh)| Case::Burst { calls, fresh }),
             1 => lists(5).prop_map(|lists| Case::Lazy { lists }),
             3 => rec,
+            2 => (2usize..=6, 1u8..=4, proptest::collection::vec((any::<u16>(), 1u8..POOL as u8), 1..6)).prop_map(|(depth, readers, writes)| Case::FfiReaders { depth, readers, writes }),
         ]
         .boxed()
     }
@@ -725,9 +907,13 @@ impl Property for C18 {
             Case::Burst { calls, fresh } => {
                 o.label(format!("burst/{}-threads{}", calls.len(), if *fresh { "/fresh-instance" } else { "" }));
                 let want: Vec<Vec<u8>> = calls.iter().map(|c| reference(sh, c)).collect();
+                if let Some(t) = want.iter().position(|w| w.first() == Some(&2)) {
+                    vfail!(o, "call {:?} panicked when made sequentially on the long-lived instance: {}", calls[t], String::from_utf8_lossy(&want[t][1..]));
+                    return o;
+                }
                 let reps: Vec<u32> = calls.iter().map(|c| match c {
                     RCall::Verify(..) | RCall::VerifyRln(..) | RCall::VerifyRoots(..) => ctx.tier.pick(6, 20),
-                    RCall::KeyGen | RCall::SeededKeyGen(_) | RCall::SeededExtKeyGen(_) | RCall::Hash(_) | RCall::Recover(..) | RCall::GetEmpty => ctx.tier.pick(40, 200),
+                    RCall::KeyGen | RCall::SeededKeyGen(_) | RCall::SeededExtKeyGen(_) | RCall::Hash(_) | RCall::Recover(..) | RCall::GetEmpty | RCall::Witness(_) | RCall::WitnessDamagedGraph(_) => ctx.tier.pick(40, 200),
                     _ => ctx.tier.pick(1500, 6000),
                 }).collect();
                 let owned;
@@ -782,6 +968,10 @@ impl Property for C18 {
                             vfail!(o, "thread {t} call {k} {c:?} panicked under concurrency: {}", String::from_utf8_lossy(&a[1..]));
                             return o;
                         }
+                        if b.first() == Some(&2) {
+                            vfail!(o, "call {c:?} panicked when made sequentially on the long-lived instance (after the calls of earlier cases in this process): {}", String::from_utf8_lossy(&b[1..]));
+                            return o;
+                        }
                         if a != b {
                             vfail!(o, "thread {t} of {} call {k} {c:?}: concurrent result {} differs from the sequential result {}", lists.len(), hexs(a), hexs(b));
                             return o;
@@ -828,6 +1018,10 @@ impl Property for C18 {
                             let want = reference(sh, c);
                             let wanth: String = want.iter().map(|x| format!("{x:02x}")).collect();
                             o.evals += 1;
+                            if hexv.starts_with("02") || want.first() == Some(&2) {
+                                vfail!(o, "fresh process, thread {t} call {k} {c:?} panicked (fresh process: {}; sequential: {})", truncate(hexv, 60), truncate(&wanth, 60));
+                                return o;
+                            }
                             if hexv != wanth {
                                 vfail!(o, "fresh process, thread {t} call {k} {c:?}: result {} differs from the sequential result {}", truncate(hexv, 100), truncate(&wanth, 100));
                                 return o;
@@ -841,6 +1035,11 @@ impl Property for C18 {
                     }
                 }
                 o.nontrivial = concurrent_same_kind(lists);
+            }
+            Case::FfiReaders { depth, readers, writes } => {
+                o.label(format!("ffi-readers/{readers}-threads"));
+                run_ffi_readers(*depth, *readers as usize, writes, &mut o);
+                o.nontrivial = *readers >= 2 && writes.len() >= 2;
             }
             Case::Recreate { api, depth, cfg, n, writes, handoff_ms } => {
                 o.label(format!("recreate/{api:?}"));
